@@ -80,6 +80,17 @@ class SystemW(Inference):
             # all indices in the last partition
             for index in self.epistemic_state["partition"][-1]:
                 [wcnf.append(c) for c in self.epistemic_state["nf_cnf_dict"][index]]
+            if len(self.epistemic_state["partition"]) < 2:
+                # no finite layer: all feasible worlds are equally plausible, so the
+                # query holds only if no feasible world falsifies it
+                [wcnf.append(c) for c in self.epistemic_state["f_cnf_dict"][0]]
+                optimizer = create_optimizer(self.epistemic_state)
+                falsifying = optimizer.minimal_correction_subsets(
+                    wcnf,
+                    ignore=list(self.epistemic_state["partition"][-1]),
+                    deadline=deadline,
+                )
+                return not falsifying
             result = self._rec_inference(
                 wcnf, len(self.epistemic_state["partition"]) - 2, deadline
             )
